@@ -2771,8 +2771,10 @@ def orbital_equinox2equinox(epoch0, epoch, i0, arg0, lon0):
         b = -sin(etar) * cos(i0r) + cos(etar) * sin(i0r) * cos(lon0r - pir)
         # Use the cosine formula: the arcsine loses the sense of retrograde
         # orbits (inclinations above 90 degrees)
-        i1 = acos(cos(i0r) * cos(etar)
+        cos_i1 = (cos(i0r) * cos(etar)
                   + sin(i0r) * sin(etar) * cos(lon0r - pir))
+        # Rounding may put the cosine a few ulp outside [-1, 1]
+        i1 = acos(max(-1.0, min(1.0, cos_i1)))
         i1 = Angle(i1, radians=True)
         omegapsi = atan2(a, b)
         omegapsi = Angle(omegapsi, radians=True)
